@@ -11,6 +11,7 @@ tasks are made by a policy (fifo / seeded random / forced prefix for DFS and
 replay) and recorded in `trace`.
 """
 import heapq
+import time as _time
 import queue as _queue
 import random
 import sys
@@ -57,6 +58,9 @@ class Task:
 
 SIGS = set()        # distinct schedule signatures executed in this process
 STATS = {'runs': 0, 'choices': 0}
+# stall detection (vf/scen.py): 'inside' is true while a task of the system
+# under test is executing one scheduling step; 't' is when that step began
+BUSY = {'inside': False, 't': 0.0}
 
 
 class Sched:
@@ -231,7 +235,12 @@ class Sched:
             raise HarnessError('step budget exhausted (livelock?)')
         i = self.choose(len(self.ready))
         t = self.ready.pop(i)
-        self._switch_to(t)
+        BUSY['t'] = _time.monotonic()
+        BUSY['inside'] = True
+        try:
+            self._switch_to(t)
+        finally:
+            BUSY['inside'] = False
         return True
 
     def quiesce(self):
